@@ -19,7 +19,8 @@ func init() {
 			"C09.phrange — the int32 placeholder number stored in the tree comes only from constants or from strconv.ParseInt(_, 10, bits<=32) with its error tested (or an explicit upper-bound test), so huge numbers cannot wrap; the `>= 1` test dominates the store; " +
 			"C09.lexinput — the lexer scans exactly ParseQuery's argument; C09.unquote — the string decoder removes exactly one delimiter at each end of a value token before turning `\"\"` into one quote (so '\"\"' adjacent to the delimiters is kept); " +
 			"C09.panics — every panic in the parser package carries a value implementing error (or is the re-panic of a recovered runtime.Error), and ParseQuery defers a recover handler, so parse errors surface as errors. " +
-			"NOT decided: that the accepted language equals the documented EBNF and that the tree has the prescribed shape (language equivalence); absence of runtime panics from the lexer's index arithmetic and termination of the state machine (need relational numeric invariants that no analysis in reach proves).",
+			"C09.progress — termination of the lexer: each state function is interpreted over the finite partition of the rune domain induced by the constants it compares the current rune with; every cycle of the state graph is shown to consume at least one rune (a direct next() with a rune present, or acceptRun(S) reached only with the current rune in S), and every loop inside the lexer calls next() on each iteration; " +
+			"NOT decided: that the accepted language equals the documented EBNF and that the tree has the prescribed shape (language equivalence); absence of runtime panics from the lexer's index arithmetic (needs relational numeric invariants); termination of the recursive-descent parser itself (follows from the lexer delivering a finite token stream, not checked).",
 		assumptions: []string{"go/ssa CFG; NORETURN summary of the error helper (all its exits are panics)", "channel close/receive semantics"},
 	})
 }
@@ -34,6 +35,7 @@ func runC09(c *Ctx) {
 	c09Panics(c)
 	unquoteRule(c, "C09.unquote")
 	lexInputRule(c, "C09.lexinput")
+	c09Progress(c)
 }
 
 func c09Goroutine(c *Ctx) {
